@@ -32,6 +32,10 @@ round 6  : SEVERAL library objects at the same time.  `multi`: 2-4 objects of mi
            threads, one of them parked mid-packet (lock held) until a send on ANOTHER client has completed (c12_threads).
            Oracle: the unchanged one-object oracle on every object's own trace + independence (multi: every object's trace is
            exactly the one it produces alone in the loop; mthreads: nobody waits for another client's lock).  Oracle only.
+round 7  : blocking TCPNetworkClient, packets of 1023 ... 3000 chunks of 1-4 bytes (around and beyond IOV_MAX = 1024, where the
+           socket transport cuts its queue into sendmsg() batches) with partial writes that leave any number of buffers of a
+           batch unsent: scripted (`span`: PartialSocket.sendmsg takes 1 ... 5000 bytes across the buffers) and the kernel's
+           own (`kernel`: 2 KB socket buffers, slow reader, 2-4 sender threads).  Same oracle.  Oracle only.
 """
 from __future__ import annotations
 
@@ -509,6 +513,12 @@ def nontrivial(case: dict, real: list[str]) -> str | None:
     if t == "mthreads":
         from vlib import c12_threads
         return c12_threads.multi_nontrivial(case, real)
+    if t == "tcp" and case.get("wide"):
+        n = case["spec"].get("n", 1)
+        if "note partial-batch" not in real:
+            return None
+        return ("tcp/threads/wide-" + ("kernel" if case.get("kernel") else "span") + "/"
+                + ("beyond-iov-max" if n + 1 > 1024 else "within-iov-max") + ("+contended" if "note contended" in real else ""))
     if t in ("tcp", "udp"):
         contended = "note contended" in real
         window = "note aux-window" in real      # an auxiliary call was attempted while a sender was parked mid-packet
@@ -708,6 +718,20 @@ def corpus() -> list[dict]:
                   "senders": [{"delay": 0, "packets": ["6161", "6262"]}, {"delay": 0, "packets": ["6363"]}],
                   "script": [[1, 2], [1, 1], [1, 1]], "cancels": []})
     cases += inject_corpus()
+    # round 7: blocking client, one / two senders, packets of 1023 ... 3000 chunks of 1-4 bytes (IOV_MAX = 1024: the transport
+    # cuts the queue into sendmsg() batches), scripted partial writes that stop inside a batch (1 byte ... several hundred
+    # buffers at once), and the kernel's own partial writes (small socket buffers, slow reader, three senders)
+    import random as _random
+    for n in WIDE_N:
+        wr = _random.Random(n)
+        spec = {"k": "chunked", "n": n, "views": "b"}
+        cases.append({"target": "tcp", "spec": spec, "wide": True, "span": True, "sizes": [700, 3, 1500, 1, 257, 64, 5000],
+                      "senders": [{"packets": [wide_packet(wr, f"{i}.{j}.", n) for j in range(2)]} for i in range(1 + n % 2)]})
+    for n in (1025, 2049, 3000):
+        wr = _random.Random(-n)
+        cases.append({"target": "tcp", "spec": {"k": "chunked", "n": n, "views": "bam"}, "wide": True, "kernel": True, "sizes": [1],
+                      "peer_read": 1024, "peer_nap_ms": 0.5,
+                      "senders": [{"packets": [wide_packet(wr, f"{i}.{j}.", n) for j in range(2)]} for i in range(3)]})
     return cases
 
 
@@ -969,6 +993,49 @@ def gen_thread_case(rng, target: str) -> dict:
     return case
 
 
+WIDE_N = [1023, 1024, 1025, 1026, 2047, 2048, 2049, 2050, 3000]
+_WIDE_ALPHABET = bytes(b for b in range(33, 127))
+
+
+def wide_packet(rng, tag: str, n: int) -> str:
+    """payload for a `chunked` packet of n pieces of 1-4 bytes (the last ones shorter / empty), no separator byte inside, not
+    periodic (pieces put on the wire in another order give other bytes)"""
+    c = rng.choice([1, 1, 2, 3, 4])
+    size = n * c - rng.randint(0, min(n // 2, n * c - (n * (c - 1) + 1)))
+    body = bytes(rng.choice(_WIDE_ALPHABET) for _ in range(max(1, size - len(tag))))
+    return (tag.encode() + body).hex()
+
+
+def gen_wide_thread_case(rng, mode: str | None = None) -> dict:
+    """round 7: blocking TCPNetworkClient, packets that the serializer hands over in MANY chunks - around and beyond IOV_MAX
+    (1024: the transport cuts the queue into sendmsg() batches) - with partial writes that leave any number of buffers of a
+    batch unsent.  `span`: scripted partial sizes across buffers (1 byte ... more than a whole batch); `kernel`: the kernel's
+    own partial writes (small socket buffers, slow reader), several sender threads"""
+    mode = mode or rng.choice(["span", "span", "kernel"])
+    nsend = rng.choice([1, 2, 2, 3]) if mode == "span" else rng.choice([2, 3, 4])
+    n = rng.choice(WIDE_N + [rng.randint(1025, 3000), rng.randint(1025, 3000), rng.randint(2, 1022)])
+    spec = {"k": "chunked", "n": n, "views": "".join(rng.choice("bbbamH") for _ in range(rng.randint(1, 3)))}
+    senders = [{"packets": [wide_packet(rng, f"{i}.{j}.", n) for j in range(rng.randint(1, 2 if mode == "span" else 3))]}
+               for i in range(nsend)]
+    case = {"target": "tcp", "spec": spec, "senders": senders, "wide": True}
+    if mode == "span":
+        case["span"] = True
+        case["sizes"] = [rng.choice([1, 2, 3, 5, 8, 17, 64, 257, 700, 1500, 2048, 5000]) for _ in range(7)]
+        nbytes = sum(len(h) // 2 + 1 for s_ in senders for h in s_["packets"])
+        calls = max(4, int(nbytes / (sum(case["sizes"]) / len(case["sizes"]))))
+        if rng.random() < 0.4:
+            case["eagain"] = sorted({rng.randrange(calls) for _ in range(rng.randint(1, 4))})
+        if rng.random() < 0.3:
+            case["parks"] = sorted({rng.randrange(calls) for _ in range(rng.randint(1, 3))})
+            case["park_ms"] = 1
+    else:
+        case["kernel"] = True
+        case["sizes"] = [1]
+        case["peer_read"] = rng.choice([256, 1024, 4096])
+        case["peer_nap_ms"] = rng.choice([0.2, 0.5, 1])
+    return case
+
+
 def gen_mthreads_case(rng) -> dict:
     """round 6: 2-3 blocking client objects (TCP / UDP mixed) used at the same time, each by its own 2-3 sender threads and
     0-2 auxiliary threads; in 70 % of the cases one object is the `gater`: its senders are parked mid-packet (lock held) until a
@@ -1071,6 +1138,7 @@ def grid_cases():
 
 
 N_TCP_QUICK, N_UDP_QUICK = 150, 50
+N_WIDE_QUICK = 36
 N_MTHREADS_QUICK, N_MULTI_QUICK = 50, 500
 
 
@@ -1087,6 +1155,10 @@ def generate(rng, tier: str, boost: int):
     for target, n in [("tcp", N_TCP_QUICK if quick else 900), ("udp", N_UDP_QUICK if quick else 300)]:
         for _ in range(n * boost):
             yield gen_thread_case(trng, target)
+    # round 7: packets of around / more than IOV_MAX chunks on the blocking client (scripted and kernel partial writes)
+    wrng = _random.Random(rng.getrandbits(64))
+    for _ in range((N_WIDE_QUICK if quick else 300) * boost):
+        yield gen_wide_thread_case(wrng)
     # round 6: several library objects in one loop / several blocking client objects at the same time (streams of their own,
     # before the long one-object series: a time box must not cut them off)
     mrng = _random.Random(rng.getrandbits(64))
